@@ -6,16 +6,48 @@
 (***************************************************************************)
 EXTENDS SeedLex, Json
 
-CONSTANTS MaxLen, Alphabet
+CONSTANTS MaxLen, Alphabet, Wraps      \* Wraps: set of <<prefix, suffix>> put around every string
 
 RECURSIVE Strings(_)
 Strings(n) == IF n = 0 THEN {<<>>} ELSE {<<ch>> \o s : ch \in Alphabet, s \in Strings(n - 1)}
 
-MCLexInit == \E n \in 0 .. MaxLen : \E text \in Strings(n) : LexInit(text)
-MCLexNext == LexNext
+VARIABLE body
+MCLexInit == \E n \in 0 .. MaxLen : \E text \in Strings(n) : \E w \in Wraps :
+                body = text /\ LexInit(w[1] \o text \o w[2])
+MCLexNext == LexNext /\ body' = body
 
 EmitLex == mode \in {"done", "failed"} =>
               PrintT("LEX " \o ToJson([src |-> src, toks |-> toks, err |-> err, msg |-> LexMsg(err)]))
+
+NoWrap == {<<(<<>>), (<<>>)>>}
+\* p("...")  and  p($"...")
+StrWraps == {<<(<<112, 40, 34>>), (<<34, 41, 10>>)>>, <<(<<112, 40, 36, 34>>), (<<34, 41, 10>>)>>}
+
+\* DecodeExact: an independent reading of the escape rules.  For a body without an
+\* unescaped quote, `$` or invalid escape, the plain literal denotes exactly this text.
+RECURSIVE Decode(_, _)
+Decode(b, i) ==
+    IF i > Len(b) THEN [ok |-> TRUE, t |-> <<>>]
+    ELSE IF b[i] \in {34, 36} THEN [ok |-> FALSE, t |-> <<>>]
+    ELSE IF b[i] # 92 THEN LET r == Decode(b, i + 1) IN [ok |-> r.ok, t |-> <<b[i]>> \o r.t]
+    ELSE IF i + 1 > Len(b) THEN [ok |-> FALSE, t |-> <<>>]
+    ELSE LET e == b[i + 1] IN
+         IF e \in {92, 34, 36} THEN LET r == Decode(b, i + 2) IN [ok |-> r.ok, t |-> <<e>> \o r.t]
+         ELSE IF e = 110 THEN LET r == Decode(b, i + 2) IN [ok |-> r.ok, t |-> <<10>> \o r.t]
+         ELSE IF e = 114 THEN LET r == Decode(b, i + 2) IN [ok |-> r.ok, t |-> <<13>> \o r.t]
+         ELSE IF e = 120 /\ i + 3 <= Len(b) /\ HexVal(b[i + 2]) >= 0 /\ HexVal(b[i + 3]) >= 0
+              THEN LET r == Decode(b, i + 4) IN
+                   [ok |-> r.ok, t |-> <<HexVal(b[i + 2]) * 16 + HexVal(b[i + 3])>> \o r.t]
+         ELSE [ok |-> FALSE, t |-> <<>>]
+DecodeExact ==
+    (mode = "done" /\ Decode(body, 1).ok /\ Len(toks) >= 3 /\ toks[3].k = "StrLiteral") =>
+        toks[3].text = Decode(body, 1).t
+\* a well-formed plain body never fails, an ill-formed one (other than by quotes) always does
+DecodeDomain ==
+    \* (a body ending in a backslash escapes the closing quote of the wrapper: excluded)
+    (mode \in {"done", "failed"} /\ Len(src) > 3 /\ src[3] = 34 /\ \A i \in 1 .. Len(body) : body[i] \notin {34}
+     /\ (Len(body) = 0 \/ body[Len(body)] # 92))
+        => (Decode(body, 1).ok <=> mode = "done")
 
 \* the branch alphabet: letter, digit, _, space, tab, CR, LF, ; # " $ \ { } x n + - = ! | & . > < :
 \* and a 2-byte and a 4-byte character
